@@ -6,6 +6,8 @@ package main
 import (
 	"bytes"
 	"fmt"
+	"net"
+	"reflect"
 
 	"github.com/miekg/dns"
 
@@ -56,6 +58,9 @@ func lenReplay(path string) {
 		if p := hx.Catch(func() {
 			if lenOne(v, &sum) {
 				skipped++
+			}
+			if v.G == "types" && len(v.V) == 3 && v.V[1] == 0 {
+				shapes(v, &sum)
 			}
 			if v.Lenmsg < 2048 { // and once more with empty lists spelled as nil slices
 				L.NilLists = true
@@ -119,6 +124,27 @@ var shorter int // vectors whose compressed packing is shorter than the uncompre
 
 func sizesFor(u int) []int { return []int{0, u, u + 1, u + 2, 2 * u} }
 
+// failedPackBefore: C08 speaks of every packable message whatever the program did before.  A Pack() that FAILS half
+// way (a later record has an owner that is not fully qualified) is the nastiest predecessor: it has already entered
+// all the names of m in whatever the packer keeps.  It is made of the case itself, so it comes along in a replay.
+func failedPackBefore(m *dns.Msg) {
+	p := m.Copy()
+	p.Compress = true
+	p.Answer = append(p.Answer, &dns.A{Hdr: dns.RR_Header{Name: "not-fully-qualified", Rrtype: dns.TypeA, Class: 1}, A: net.IP{192, 0, 2, 1}})
+	if _, err := p.Pack(); err == nil {
+		hx.Die("the poisoned message was packed")
+	}
+}
+
+// afterFailure: a successful compressed Pack of an unrelated message, so that a failed Pack of one case is not the
+// predecessor of the next (cases are judged on their own).
+func afterFailure() {
+	m := new(dns.Msg)
+	m.Compress = true
+	m.Question = []dns.Question{{Name: "cleanse.invalid.", Qtype: 1, Qclass: 1}, {Name: "cleanse.invalid.", Qtype: 28, Qclass: 1}}
+	_, _ = m.Pack()
+}
+
 func lenOne(v *lvec, sum *hx.Summary) (c01 bool) {
 	key := L.MsgKey(&v.Msg)
 	build := func(compress bool) *dns.Msg {
@@ -133,10 +159,21 @@ func lenOne(v *lvec, sum *hx.Summary) (c01 bool) {
 	for _, compress := range []bool{false, true} {
 		tag := cTag(compress)
 		m := build(compress)
+		if compress {
+			failedPackBefore(m)
+		}
 		l := m.Len()
 		b, err := m.Pack()
+		if err != nil {
+			afterFailure()
+		}
 		if err != nil && err != dns.ErrBuf && v.Refuse {
 			continue // admitted by the specification: an unordered type list may be refused
+		}
+		if err == nil && compress { // and packing the same value again gives the same octets
+			if b2, err2 := build(compress).Pack(); err2 != nil || !bytes.Equal(b, b2) {
+				sum.Mis("len/pack-unstable:"+key, fmt.Sprintf("two successive Pack() of the same message (the first after a failed Pack of another) differ: %d and %d octets, Len() = %d", len(b), len(b2), l), smallL(v))
+			}
 		}
 		if err != nil {
 			k := "len/pack-error:"
@@ -234,6 +271,100 @@ func lenOne(v *lvec, sum *hx.Summary) (c01 bool) {
 	return
 }
 
+// ---------------------------------------------------------------- values only a caller can build
+//
+// A decoder yields one spelling of each value; a caller may hand the packer others that Pack accepts: a 16-octet
+// net.IP in an A record (IPv4-mapped or not), nil and empty addresses, empty strings and names, nil string lists.
+// "Can be packed" is decided by the packer itself given ample room (PackBuffer into a large buffer succeeds);
+// then Pack() must succeed as well, Len() must cover the octets and Len(rr) the record's.
+// Run on the baseline record of every type (types mode, field 0), one field and one shape at a time.
+func shapes(v *lvec, sum *hx.Summary) {
+	rrs := v.Msg.RRs()
+	if len(rrs) != 1 || rrs[0].Nodata {
+		return
+	}
+	mn := L.Mnemonic(rrs[0].Type)
+	probe, err := L.BuildRR(rrs[0])
+	if err != nil {
+		return
+	}
+	sv := reflect.ValueOf(probe).Elem()
+	for fi := 0; fi < sv.NumField(); fi++ {
+		ft := sv.Type().Field(fi)
+		if !ft.IsExported() || ft.Name == "Hdr" {
+			continue
+		}
+		var variants []struct {
+			name string
+			val  interface{}
+		}
+		add := func(n string, x interface{}) {
+			variants = append(variants, struct {
+				name string
+				val  interface{}
+			}{n, x})
+		}
+		switch sv.Field(fi).Interface().(type) {
+		case net.IP:
+			add("ip-nil", net.IP(nil))
+			add("ip-empty", net.IP{})
+			add("ip4", net.IP{192, 0, 2, 7})
+			add("ip4in16", net.IPv4(192, 0, 2, 7))
+			add("ip16", net.ParseIP("2001:db8::7"))
+		case string:
+			add("string-empty", "")
+		case []string:
+			add("strings-nil", []string(nil))
+			add("strings-one-empty", []string{""})
+		case []uint16:
+			add("types-nil", []uint16(nil))
+		default:
+			continue
+		}
+		for _, va := range variants {
+			mk := func(compress bool) (*dns.Msg, dns.RR) {
+				rr, _ := L.BuildRR(rrs[0])
+				reflect.ValueOf(rr).Elem().Field(fi).Set(reflect.ValueOf(va.val))
+				m := &dns.Msg{Compress: compress}
+				m.Question = []dns.Question{{Name: "o.x.", Qtype: 255, Qclass: 1}}
+				if rrs[0].Type == 41 {
+					m.Extra = []dns.RR{rr}
+				} else {
+					m.Answer = []dns.RR{rr}
+				}
+				return m, rr
+			}
+			cls := mn + ":" + ft.Name + "=" + va.name
+			cse := map[string]interface{}{"g": v.G, "v": v.V, "big": true} // re-derived by the replay
+			for _, compress := range []bool{false, true} {
+				m, rr := mk(compress)
+				room, err := m.PackBuffer(make([]byte, 70000))
+				if err != nil {
+					afterFailure()
+					continue // the packer refuses this value: outside "every message that can be packed"
+				}
+				sum.Evaluations++
+				m, rr = mk(compress)
+				l := m.Len()
+				b, err := m.Pack()
+				switch {
+				case err != nil:
+					afterFailure()
+					sum.Mis("len/pack-error-shape:"+cls, fmt.Sprintf("Pack() fails (%v) on a value PackBuffer packs into %d octets given room; Len() = %d", err, len(room), l), cse)
+				case l < len(b):
+					sum.Mis("len/underestimate-shape:"+cls, fmt.Sprintf("Len() = %d < len(Pack()) = %d", l, len(b)), cse)
+				}
+				if !compress {
+					buf := make([]byte, 70000)
+					if off, err := dns.PackRR(rr, buf, 0, nil, false); err == nil && dns.Len(rr) < off {
+						sum.Mis("len/rr-underestimate-shape:"+cls, fmt.Sprintf("Len(rr) = %d, PackRR writes %d octets", dns.Len(rr), off), cse)
+					}
+				}
+			}
+		}
+	}
+}
+
 // ---------------------------------------------------------------- recorded events (judged by Trace_CompressLen)
 
 type levent struct {
@@ -247,6 +378,9 @@ type levent struct {
 	Packlen  int       `json:"packlen"` // len(Pack())
 	RRLen    [][]int   `json:"rrlen"`   // per record: Len(rr), octets PackRR produced (uncompressed)
 	Probes   []probe   `json:"probes"`
+	// with Compress: the Pack() above ran right after a FAILED Pack of a message with the same names; a second Pack()
+	// of the same value gave the same octets
+	Stable bool `json:"stable"`
 }
 
 func lenObserve(a *wire.Msg, compress bool, sum *hx.Summary) levent {
@@ -262,9 +396,13 @@ func lenObserve(a *wire.Msg, compress bool, sum *hx.Summary) levent {
 	p := hx.Catch(func() {
 		e.Ulen = build(false).Len()
 		m := build(compress)
+		if compress {
+			failedPackBefore(m)
+		}
 		e.Len = m.Len()
 		b, err := m.Pack()
 		if err != nil {
+			afterFailure()
 			e.PackErr = err.Error()
 			if err == dns.ErrBuf {
 				e.PackErr = "ErrBuf"
@@ -272,6 +410,11 @@ func lenObserve(a *wire.Msg, compress bool, sum *hx.Summary) levent {
 			return
 		}
 		e.Packed, e.Packlen = true, len(b)
+		e.Stable = true
+		if compress {
+			b2, err2 := build(compress).Pack()
+			e.Stable = err2 == nil && bytes.Equal(b, b2)
+		}
 		for _, rr := range append(append(append([]dns.RR{}, m.Answer...), m.Ns...), m.Extra...) {
 			buf := make([]byte, dns.Len(rr)+300)
 			off, err := dns.PackRR(rr, buf, 0, nil, false)
